@@ -31,11 +31,12 @@ func (noExec) Cancel(context.Context, platform.ID) error { return nil }
 type coordState struct {
 	c     *coordinator.Coordinator
 	tasks map[int]*taskmodel.Task
+	sched map[int]bool // is the id scheduled at the moment (through the coordinator or directly)
 	rng   *rand.Rand
 }
 
 func (y *sys) useCoordinator(rng *rand.Rand) {
-	y.co = &coordState{c: coordinator.NewCoordinator(zap.NewNop(), y.s, noExec{}), tasks: map[int]*taskmodel.Task{}, rng: rng}
+	y.co = &coordState{c: coordinator.NewCoordinator(zap.NewNop(), y.s, noExec{}), tasks: map[int]*taskmodel.Task{}, sched: map[int]bool{}, rng: rng}
 }
 
 // viaCoordinator: can this Schedule move be expressed through the coordinator with the same effective lastScheduled?
@@ -78,6 +79,7 @@ func (y *sys) coordSchedule(id int, k string, e, o, last int) {
 		}
 	})
 	co.tasks[id] = to
+	co.sched[id] = true
 	y.t.Event("Ret", rt.M{"err": errStr(rerr)})
 	y.kick()
 }
@@ -85,20 +87,37 @@ func (y *sys) coordSchedule(id int, k string, e, o, last int) {
 func (y *sys) coordRelease(id int) {
 	co := y.co
 	from := co.tasks[id]
+	// the ways a task stops being scheduled - or stays that way:
+	//   deleted          TaskDeleted
+	//   inactive         TaskUpdated active -> inactive
+	//   update-inactive  TaskUpdated inactive -> inactive (e.g. renamed while disabled): must stay unscheduled
+	//   create-inactive  TaskCreated with status inactive: must not be scheduled
 	how := "deleted"
-	if from != nil && from.Status == string(taskmodel.TaskActive) && co.rng.Intn(2) == 0 {
+	switch {
+	case from == nil && !co.sched[id] && co.rng.Intn(2) == 0:
+		how = "create-inactive" // only meaningful for an id that is not scheduled (directly or otherwise)
+	case from != nil && from.Status == string(taskmodel.TaskActive) && co.rng.Intn(2) == 0:
 		how = "inactive"
+	case from != nil && from.Status == string(taskmodel.TaskInactive) && co.rng.Intn(3) != 0:
+		how = "update-inactive"
 	}
+	co.sched[id] = false
 	y.t.Event("Call", rt.M{"t": "R", "id": id, "via": "coord", "how": how})
 	var rerr error
-	y.within("TaskDeleted/TaskUpdated", func() {
-		if how == "inactive" {
+	y.within("coordinator call", func() {
+		switch how {
+		case "inactive", "update-inactive":
 			to := *from
 			to.Status = string(taskmodel.TaskInactive)
+			to.Name = from.Name + "'"
 			rerr = co.c.TaskUpdated(context.Background(), from, &to)
-			// the next Schedule of this id is a fresh create (an update of an inactive task is a different story, see notes)
-			delete(co.tasks, id)
-		} else {
+			co.tasks[id] = &to
+		case "create-inactive":
+			to := &taskmodel.Task{ID: platform.ID(y.real[id]), Status: string(taskmodel.TaskInactive), Every: "1s",
+				CreatedAt: base.Add(-time.Hour), LatestCompleted: y.mock.Now().Add(-3 * time.Second)}
+			rerr = co.c.TaskCreated(context.Background(), to)
+			co.tasks[id] = to
+		default:
 			rerr = co.c.TaskDeleted(context.Background(), platform.ID(y.real[id]))
 			delete(co.tasks, id)
 		}
